@@ -44,22 +44,22 @@ ASSUMPTIONS = [
 TRUSTED = []
 MANIFEST = dict(
     text="Machine-checked theorems (Coq 8.16.1, 28 statements in Props/C20.v) about an executable Gallina model of Pattern.__init__/"
-         "from_note_lists, Pattern.group, PtnCombo.combinations, PtnFilter{Combo,Chord,Type}.create and the two templates, for ALL note "
-         "sets, windows v >= 0, h in {None,0,1,..}, both jack settings, sizes >= 2, make_size2 and filter arrays: grouping is a partition "
-         "(multiset of rows), every group lies in the vertical and horizontal window of its first note and has no repeated column when "
-         "jacks are avoided; combinations() returns exactly (multiset, both inclusions) the filtered cartesian products of each n "
-         "consecutive groups for every column and type filter (np.meshgrid order proved a permutation of the product; base-keys hash "
-         "proved injective on 0..keys-1); for the chord-size filter the statement is REFUTED (numpy element-wise `in`; witness proved in "
-         "Coq and replayed on the code as corpus case), characterised exactly, and proved under the guard excluding the defect and for "
-         "the repaired test; every constructor option (REPEAT/HMIRROR/VMIRROR/AND_LOWER/AND_HIGHER/ANY_ORDER/MIRROR, np.unique) is "
-         "characterised as a set of rows. The boolean oracles are proved to decide the specification. The model is tied to the code on "
-         "every run by in-Coq correspondence on ~1200 generated cases (thorough: 24000 + exhaustive small scope), step by step along the "
-         "implementation's own states (df, groups, filter arrays, combinations), plus the oracle on implementation outputs.",
-    note="Known finding chord-filter-elementwise-any (PtnFilterChord.filter; also reached through template_chord_stream). Domain guards: "
-         "size >= 2, filter width = combination size, columns and filter rows within 0..keys-1 when a column filter is used (hash "
-         "collisions otherwise). The two templates are checked by their own oracle and by correspondence on every run, not by a for-all "
-         "theorem. bisect is modelled by its meaning on a sorted list (sortedness checked per case). Trusted: Coq kernel+VM, harness "
-         "generator/serialiser; times scaled to Z; all theorems 'Closed under the global context'.",
+         "from_note_lists, Pattern.group, PtnCombo.combinations, PtnFilter{Combo,Chord,Type}.filter/.create and the two templates, for ALL "
+         "note sets, windows v >= 0, h in {None,0,1,..}, both jack settings, sizes >= 2, make_size2 and filter arrays: grouping is a "
+         "partition (multiset of rows), every group lies in the vertical and horizontal window of its first note and has no repeated "
+         "column when jacks are avoided; combinations() returns exactly (multiset, both inclusions) the sequences taking one note from "
+         "each of n consecutive groups that pass the chord-size, column and type filters (C20_combos_exact, every filter, no guard; "
+         "np.meshgrid order proved a permutation of the product; base-keys hash proved injective on 0..keys-1); template_jacks and "
+         "template_chord_stream are proved equal to their own specifications; every constructor option (REPEAT/HMIRROR/VMIRROR/AND_LOWER/"
+         "AND_HIGHER/ANY_ORDER/MIRROR, np.unique) is characterised as a set of rows; the boolean oracles are proved to decide the "
+         "specification. The defect found by this check (element-wise chord test, fixed in 1bc6769) survives as a clearly named OLD "
+         "variant of which the statement is refuted with a witness. The model is tied to the code on every run by in-Coq correspondence on "
+         "~1200 generated cases (thorough: 24000 + exhaustive small scope), step by step along the implementation's own states (df, "
+         "groups, filter arrays, combinations), plus the oracle on implementation outputs; only the repaired behaviour is accepted.",
+    note="No known findings (chord-filter-elementwise-any fixed in 1bc6769; reverting it raises a VIOLATION with a replay). Domain guards: "
+         "size >= 2, filter width = combination size, columns and filter rows within 0..keys-1 when a column filter or a template is used "
+         "(hash collisions otherwise). bisect is modelled by its meaning on a sorted list (sortedness checked per case). Trusted: Coq "
+         "kernel+VM, harness generator/serialiser; times scaled to Z; all theorems 'Closed under the global context'.",
     technique="Coq proof over executable model + vm_compute correspondence against the implementation",
     design="4/C20")
 
